@@ -450,6 +450,10 @@ func (p *printer) node1(it *item) (string, error) {
 		return p.tag(it.l, "endfor", it.r), nil
 	case "strayclause":
 		return p.tag(it.l, "when 1", it.r), nil
+	case "openraw": // raw / comment blocks that are never closed (they swallow what follows)
+		return p.tag(it.l, "raw", it.r), nil
+	case "opencomment":
+		return p.tag(it.l, "comment", it.r), nil
 	case "openif": // a block that is never closed
 		return p.tag(it.l, "if true", it.r), nil
 	case "badif": // a block tag whose arguments do not parse
